@@ -1057,14 +1057,15 @@ func (h *H) Scenario(name string) (bool, error) {
 			return false, nil
 		}
 		parent := h.buildFrom([]src{own[0]}, 100)
-		if h.ChildOf(parent) == nil {
+		h.defineTx(parent)
+		child := h.ChildOf(parent)
+		if child == nil {
 			return false, nil
 		}
 		b := h.BuildBlockP(0, []*wire.MsgTx{parent})
 		if err := h.Attach(b); err != nil {
 			return false, err
 		}
-		child := h.ChildOf(parent)
 		h.Receive(child)
 		if _, err := h.Detach(); err != nil {
 			return false, err
